@@ -587,6 +587,53 @@ def rule_order(chk, prog):
         chk.violation("K11-order", "pack_files:list", pf, "pack_files does not walk the sorted file list")
 
 
+def _replace_side_strict(g, cmp):
+    """the comparison decides a branch, and on one side of it the remembered node (a pointer phi) is replaced by one of the
+    two nodes compared: is the relation that holds on *that* side strict?  None if the shape is not this one."""
+    def base_node(v):
+        v = unext(v)
+        if v.is_inst and v.op == "load":
+            p = strip_casts(v.ops[0])
+            while p.is_inst and p.op == "getelementptr":
+                p = strip_casts(p.ops[0])
+            return p
+        return None
+    na, nb = base_node(cmp.ops[0]), base_node(cmp.ops[1])
+    if na is None or nb is None:
+        return None
+    for br in g.uses.get(cmp, []):
+        if br.op != "br" or len(br.x["succ"]) != 2:
+            continue
+        inc = {}
+        for k, sx in enumerate(br.x["succ"]):
+            pred, m = br.bb, sx
+            if len(sx.insts) == 1 and sx.term.op == "br" and len(sx.succs) == 1:
+                pred, m = sx, sx.succs[0]
+            for ph in m.insts:
+                if ph.op != "phi":
+                    break
+                if not ph.ty.endswith("*"):
+                    continue
+                for val, pr in zip(ph.ops, ph.x["inc"]):
+                    if pr is pred:
+                        inc.setdefault(id(ph), [ph, None, None])[1 + k] = strip_casts(val)
+        sides = []
+        for ph, v0, v1 in inc.values():
+            if v0 is None or v1 is None or v0 is v1:
+                continue
+            if not ((v0 is na and v1 is nb) or (v0 is nb and v1 is na)):
+                continue
+            # the remembered node is the one the merged value flows back into
+            for k, keep, new_ in ((0, v1, v0), (1, v0, v1)):
+                if keep.is_inst and keep.op == "phi" and any(strip_casts(o) is ph for o in keep.ops):
+                    sides.append(k)
+        if len(set(sides)) != 1:
+            continue
+        holds = cmp.pred if sides[0] == 0 else {"slt": "sge", "sge": "slt", "sgt": "sle", "sle": "sgt"}[cmp.pred]
+        return holds in ("slt", "sgt")
+    return None
+
+
 def rule_stable_sort(chk, prog):
     """ascending priority, ties in default order: the comparison is on the full-width priorities; a selection sort replaces
     the minimum only on strictly smaller; comparator functions are evaluated exhaustively"""
@@ -607,11 +654,16 @@ def rule_stable_sort(chk, prog):
                     chk.violation("K14-sort", inst, i, "priorities are compared after narrowing to %s" % a.ty)
                 elif i.pred in ("eq", "ne"):
                     chk.ok("K14-sort", inst, i, "equality test of two priorities (no order decision)")
-                elif i.pred in ("slt", "sgt"):
-                    chk.ok("K14-sort", inst, i, "full 64-bit signed comparison; strict, so an equal priority never displaces an earlier file")
-                elif i.pred in ("sle", "sge"):
-                    chk.violation("K14-sort", inst, i, "non-strict comparison in the selection: among equal priorities a later file displaces an "
-                                  "earlier one, ties are not kept in default order")
+                elif i.pred in ("slt", "sgt", "sle", "sge"):
+                    strict = _replace_side_strict(g, i)
+                    if strict is None:
+                        strict = i.pred in ("slt", "sgt")
+                    if strict:
+                        chk.ok("K14-sort", inst, i, "full 64-bit signed comparison; the minimum is replaced on strictly smaller only, so an "
+                               "equal priority never displaces an earlier file")
+                    else:
+                        chk.violation("K14-sort", inst, i, "non-strict comparison in the selection: among equal priorities a later file "
+                                      "displaces an earlier one, ties are not kept in default order")
                 else:
                     chk.violation("K14-sort", inst, i, "priorities compared with %s: not the signed order of the sort file" % i.pred)
     for g in shaped_comparators(prog, units_prefix=("bin/gensquashfs/src/sort_by_file.c",)):
